@@ -217,18 +217,18 @@ Proof.
     rewrite Hla in E. discriminate.
 Qed.
 
-Lemma recover_outer_spec f e : tokish e -> forall s stk wr, Core s stk wr -> qla s = (-1)%Z ->
+Lemma recover_outer_spec f : forall e s stk wr, tokish e -> Core s stk wr -> qla s = (-1)%Z ->
   match recover_outer tb f e s with
   | Continue s1 => exists d wr1 n, wr = d ++ wr1 /\ Core s1 (skipn n stk) wr1 /\ qla s1 <> (-1)%Z
   | Crash | Accept _ => False
   | _ => True
   end.
 Proof.
-  intros He. induction f as [|f IH]; intros s stk wr HC Hq; cbn [recover_outer]; auto.
-  pose proof (recover_pops_spec g tb c nterm Hval (S f) (la s) (stack s)
+  induction f as [|f IH]; intros e s stk wr He HC Hq; cbn [recover_outer]; auto.
+  pose proof (recover_pops_spec g tb c nterm Hval (S f) (la s) (stack s) e
                 (srel_valid _ _ (C_stack _ _ _ HC) (C_path _ _ _ HC))) as Hpops.
-  destruct (recover_pops tb (S f) (stack s) (la s)) as [[[st'|]|] b].
-  - destruct Hpops as (n & Hn & ->).
+  destruct (recover_pops tb (S f) (stack s) (la s) e) as [st' e'|e'| |]; auto.
+  - destruct Hpops as [(n & Hn & ->) Hte].
     destruct HC as [Hst Hpath Hwr Hsym Hregs Htr].
     pose proof (srel_len _ _ Hst) as Hlen.
     destruct Hregs as [(_ & Hla & Hin)|(Hq2 & _)]; [|lia].
@@ -241,12 +241,11 @@ Proof.
   - destruct (la s =? EOF)%Z; auto.
     destruct (core_read _ _ _ HC) as (s' & Hrd & Hq' & HC'). rewrite Hrd.
     rewrite Hq in HC'. cbn [Z.eqb Pos.eqb] in HC'.
-    specialize (IH _ _ _ HC' Hq').
-    destruct (recover_outer tb f e s') as [s1| | | |]; auto.
+    specialize (IH e' _ _ _ (Hpops He) HC' Hq').
+    destruct (recover_outer tb f e' s') as [s1| | | |]; auto.
     destruct IH as (d & wr1 & n & Hwr & HC1 & Hq1).
     destruct (tl_split wr) as (d0 & Hd0). exists (d0 ++ d), wr1, n.
     rewrite <- app_assoc, <- Hwr. auto.
-  - destruct b; auto.
 Qed.
 
 Section Word.
@@ -308,7 +307,13 @@ Lemma inv_reduce f s stk wc wr top v pr a :
   v <> accept_code -> (v < 0)%Z -> Z.to_nat (- v) <> 0 ->
   nth_error g (Z.to_nat (- v)) = Some pr ->
   item (topst stk) (Z.to_nat (- v)) (length (rhs pr)) a ->
-  exists s', pstep tb eb true discard f s = Continue s' /\ RInv s'.
+  exists s' ns, pstep tb eb true discard f s = Continue s' /\ RInv s' /\
+    (la s' = la s /\ lasym s' = lasym s /\ qla s' = qla s /\ qlasym s' = qlasym s) /\
+    length (rhs pr) < length (stack s) /\
+    map i_state (stack s') = ns :: skipn (length (rhs pr)) (map i_state (stack s)) /\
+    exists exposed rest',
+      skipn (length (rhs pr)) (map i_state (stack s)) = exposed :: rest' /\
+      find (t_goto tb) exposed (Z.of_nat (lhs pr)) = FFound ns.
 Proof.
   intros Hw HC HE Hpk Htop Hf Hna Hv Hp0 Hp Hitem.
   remember (Z.to_nat (- v)) as p eqn:Hpv.
@@ -335,7 +340,14 @@ Proof.
   - rewrite Nat2Z.id. lia.
   - rewrite Nat2Z.id. exact Hpk'.
   - exact Hgf.
-  - rewrite Hps. eexists. split; [reflexivity|]. rewrite Nat2Z.id.
+  - rewrite Hps. eexists. exists (Z.of_nat s'). split; [reflexivity|]. rewrite Nat2Z.id.
+    split; [|split; [|split; [|split]]].
+    2:{ cbn [set_stack la lasym qla qlasym]. auto. }
+    2:{ lia. }
+    2:{ cbn [set_stack stack map i_state]. rewrite skipn_map. reflexivity. }
+    2:{ rewrite skipn_map. destruct (skipn (length (rhs pr)) (stack s)) as [|t0 r]; [discriminate|].
+        simpl in Hpk'. inversion Hpk'; subst t0. exists (i_state top'), (map i_state r).
+        split; [reflexivity|exact Hgf]. }
     exists ((s', Node p ch) :: rest), wc, wr. split; [exact Hw|]. split.
     + destruct HC as [_ _ Hwr Hsym Hregs Htr].
       constructor; cbn [set_stack stack la lasym qla qlasym input trace]; auto.
@@ -401,7 +413,7 @@ Proof.
   pose proof (skip_errors_spec f s stk wr HC) as Hsk.
   destruct (skip_errors tb f s) as [s1| | | |]; auto.
   destruct Hsk as (d1 & wr1 & Hwr & HC1 & Hq1).
-  pose proof (recover_outer_spec f e Hte s1 stk wr1 HC1 Hq1) as Hro.
+  pose proof (recover_outer_spec f e s1 stk wr1 Hte HC1 Hq1) as Hro.
   destruct (recover_outer tb f e s1) as [s2| | | |]; auto.
   destruct Hro as (d2 & wr2 & n & Hwr1 & HC2 & Hq2).
   exists (skipn n stk), (wc ++ d1 ++ d2), wr2. split; [|split]; auto.
@@ -440,7 +452,7 @@ Proof.
         rewrite Hrd. exact HI.
       * apply Z.leb_gt in E2. inversion Hjust as [|p pr Hp0 Hp Hitem|]; subst.
         destruct (inv_reduce f s stk wc wr top v pr _ Hw HC HE Hpk Htop Hf E E2 Hp0 Hp Hitem)
-          as (s' & Hps & HI).
+          as (s' & ns & Hps & HI & _).
         rewrite Hps. exact HI.
   - unfold pstep. rewrite Hpk, Hf. pose proof (inv_recover f s stk wc wr Hw HC HE) as Hr.
     destruct (recover tb f s); auto. destruct Hr.
